@@ -4,6 +4,7 @@ go 1.26.2
 
 require (
 	github.com/cespare/xxhash/v2 v2.3.0
+	github.com/golang/snappy v1.0.0
 	github.com/google/uuid v1.6.0
 	github.com/hydraide/hydraide v0.0.0
 	github.com/hydraide/hydraide/sdk/go/hydraidego/v3 v3.0.0-00010101000000-000000000000
@@ -24,7 +25,6 @@ require (
 	github.com/charmbracelet/x/term v0.2.2 // indirect
 	github.com/clipperhouse/displaywidth v0.11.0 // indirect
 	github.com/clipperhouse/uax29/v2 v2.7.0 // indirect
-	github.com/golang/snappy v1.0.0 // indirect
 	github.com/joho/godotenv v1.5.1 // indirect
 	github.com/klauspost/compress v1.18.5 // indirect
 	github.com/lucasb-eyer/go-colorful v1.4.0 // indirect
